@@ -127,3 +127,20 @@ CHECKS["C14"] = {
     "outside": ["BCP 47 <-> platform language id / OpenType script-language tag mapping (x/text tables: only concrete enumeration possible)", "strings longer than 2 characters (up to 32767 units)", "more than 2 languages per platform", "Mac strings with non-ASCII repertoire members inside the name table (covered by the codec harnesses)", "x/image comparison"],
     "assumptions": ["strings are valid UTF-8 without NUL", "Macintosh strings are representable in Mac Roman"],
 }
+
+CHECKS["C13"] = {
+    "harnesses": [
+        H("cff", "c13.go", "VerifH_C13_int", ["decoded"], quick={"timeout": 200}),
+        H("cff", "c13.go", "VerifH_C13_dict_bytes", ["accepted"], quick={"params": {"maxlen": 2}, "timeout": 280}, thorough={"params": {"maxlen": 3}, "timeout": 2400}),
+        H("cff", "c13.go", "VerifH_C13_index", ["read"], quick={"params": {"maxcount": 3}, "timeout": 200}),
+        H("cff", "c13.go", "VerifH_C13_offsize", ["done"], quick={"timeout": 280}),
+        H("cff", "c13.go", "VerifH_C13_charset", ["read"], quick={"params": {"maxnames": 4}, "timeout": 280}, thorough={"params": {"maxnames": 7}, "timeout": 2400}),
+        H("cff", "c13.go", "VerifH_C13_charset_long", ["done"], quick={"timeout": 280}),
+        H("cff", "c13.go", "VerifH_C13_fdselect", ["format3", "format0"], quick={"params": {"nchoices": 5}, "timeout": 280}, thorough={"params": {"nchoices": 7}, "timeout": 2400}),
+        H("cff", "c13.go", "VerifH_C13_width", ["selected"], quick={"params": {"maxglyphsel": 2}, "timeout": 280}, thorough={"params": {"maxglyphsel": 3}, "timeout": 2400}),
+    ],
+    "bounds": {"quick": "DICT: 1..2 operands, each any int32; arbitrary DICT bytes (<=2, no reals); INDEX: 0..3 blobs of 0..2 symbolic bytes, and single blobs at the offSize thresholds {0,1,254,255,256,65534,65535,65536,70000}; charset: 1..4 symbolic 16-bit SIDs/CIDs (every run structure) plus runs of {255,256,257,300,513}; FDSelect: {1,2,5,8,9} glyphs over 1..3 font dicts, symbolic query glyph; widths: fonts of 1 or 2 glyphs with symbolic widths on a 1/16 grid in [-2000,2000] through selectWidths, makePrivateDict, encodeCharString and decodeCharString",
+               "thorough": "DICT bytes 3, 7 names, up to 12 glyphs, 4 glyphs for widths"},
+    "outside": ["DICT real numbers (encodeFloat/decodeFloat use Log10/Pow10/ParseFloat: not in the solver fragment)", "string INDEX / SIDs of custom strings, built-in encodings with supplements", "whole cff.Font Write/Read (CID-keyed fonts, FontInfo, font matrices)", "more than 9 glyphs, 256 private dicts"],
+    "assumptions": ["widths on a 1/16 grid (exact dyadic arithmetic)", "default/nominal widths as seen by the reader are taken from the cffDict before DICT serialisation (reals are not serialised symbolically)"],
+}
